@@ -381,7 +381,7 @@ HLconvert(int32 aid, int32 block_length, int32 number_blocks)
 {
     filerec_t  *file_rec;                               /* file record */
     accrec_t   *access_rec = NULL;                      /* access record */
-    linkinfo_t *info;                                   /* information for the linked blocks elt */
+    linkinfo_t *info = NULL;                            /* information for the linked blocks elt */
     uint16      link_ref;                               /* the ref of the link structure
                                                            (block table) */
     int32  dd_aid;                                      /* AID for writing the special info */
@@ -517,9 +517,12 @@ HLconvert(int32 aid, int32 block_length, int32 number_blocks)
 
 done:
     if (ret_value == FAIL) { /* Error condition cleanup */
-        if (access_rec != NULL) {
+        /* The access record belongs to the caller (its AID stays registered), so it must not be
+           released here; only drop the special info this call allocated itself. */
+        if (access_rec != NULL && access_rec->special != SPECIAL_LINKED && access_rec->special_info != NULL &&
+            (linkinfo_t *)access_rec->special_info == info) {
             free(access_rec->special_info);
-            HIrelease_accrec_node(access_rec);
+            access_rec->special_info = NULL;
         }
     }
 
